@@ -348,6 +348,47 @@ var hostileImports = []string{
 	`import "outside.risor"`, `import "../root/../outside"`, `import "%2e%2e/outside"`, `import "pkg/..outside"`,
 }
 
+var hostilePieces = []string{"..", "..", ".", "", "outside", "root", "sandbox", "pkg", "~", "..outside", "outside..", "...", "%2e%2e", "outside.risor", "C:", " ", "..\\\\outside", "\\x00", "\\u2215", "a b"}
+
+// genHostileImport assembles an import statement around a quoted path made of
+// escaping, odd and legal components.
+func genHostileImport(g *sim.Stream, prog *c14Prog) string {
+	var parts []string
+	n := g.Range(1, 5)
+	for i := 0; i < n; i++ {
+		if len(prog.Mods) > 0 && g.Chance(1, 4) {
+			// a legal piece: (a prefix of) an existing module path
+			segs := strings.Split(prog.Mods[g.Intn(len(prog.Mods))].Path, "/")
+			parts = append(parts, segs[:g.Range(1, len(segs))]...)
+			continue
+		}
+		parts = append(parts, hostilePieces[g.Intn(len(hostilePieces))])
+	}
+	path := strings.Join(parts, "/")
+	switch g.Intn(6) {
+	case 0:
+		path = "/" + path
+	case 1:
+		path = "./" + path
+	case 2:
+		path = path + "/"
+	case 3:
+		path = "../" + path
+	}
+	switch g.Intn(5) {
+	case 0:
+		return fmt.Sprintf("import \"%s\"", path)
+	case 1:
+		return fmt.Sprintf("import \"%s\" as hx", path)
+	case 2:
+		return fmt.Sprintf("from \"%s\" import outside", path)
+	case 3:
+		return fmt.Sprintf("from \"%s\" import (outside, root as r2)", path)
+	default:
+		return fmt.Sprintf("from \"%s\" import outside as o2", path)
+	}
+}
+
 func init() {
 	fw.Register(&fw.Scenario{
 		Property: "C14",
@@ -478,11 +519,20 @@ func runC14(rc *fw.RunCtx) {
 	main := prog.Main
 	expected := "[" + strings.Join(prog.Expected, ", ") + "]"
 	hostile := ""
+	hostileGenerated := false
 	nworkers := 0
 	preImport := false
 	switch {
 	case mode == 0:
-		hostile = hostileImports[g.Intn(len(hostileImports))]
+		if g.Bool() {
+			hostile = hostileImports[g.Intn(len(hostileImports))]
+		} else {
+			// a path text assembled from escaping, odd and legal pieces: it need
+			// not be rejected (it may name a module under the root), but whatever
+			// is read must lie under the root
+			hostile = genHostileImport(g, prog)
+			hostileGenerated = true
+		}
 		main = hostile + "\n\"reached\"\n"
 	case mode <= 2:
 		// concurrent importers: each goroutine imports the same modules and
@@ -639,6 +689,13 @@ func runC14(rc *fw.RunCtx) {
 	}
 	if mode == 0 {
 		rc.NonTrivial = true
+		if hostileGenerated {
+			rc.Hit("mode_hostile_generated")
+			if out.Err == nil {
+				rc.Hit("hostile_generated_accepted_inside_root")
+			}
+			return
+		}
 		if out.Err == nil {
 			rc.Violate("confinement/hostile-spelling-accepted", "hostile import %q was accepted: %s", hostile, out.String())
 		}
